@@ -302,7 +302,7 @@ def parse_get_value(out: str) -> Dict[str, str]:
         return {}
     txt = out[m:]
     # tokenise s-expr
-    toks = re.findall(r'"(?:[^"]|"")*"|\(|\)|[^\s()]+', txt)
+    toks = re.findall(r'"(?:[^"]|"")*"|\|[^|]*\||\(|\)|[^\s()]+', txt)
     pos = 0
 
     def parse():
